@@ -824,6 +824,11 @@ func (s *Stream) handleData(off int64, b []byte, fin bool) error {
 			// but it still counts against the connection-level limit
 			// we advertised. Record the new highest offset and return
 			// the credit right away.
+			//
+			// The read side can also have been closed by the conn closing
+			// (connHasClosed), which leaves the fast-path read buffer in
+			// place: drop it before its storage is recycled.
+			s.dropInbuf()
 			s.in.discardBefore(end)
 			s.conn.handleStreamBytesReadOnLoop(added)
 		}
